@@ -269,8 +269,10 @@ pub fn parse_file_internal(context: &ParseContext) -> Result<(), Error> {
     let mut source = String::new();
     file.read_to_string(&mut source)?;
 
+    let known_paths = include_paths.clone();
     let include_paths = RefCell::new(include_paths);
 
+    let outer = context;
     let context = ParseContext {
         current_path,
         include_paths,
@@ -281,6 +283,11 @@ pub fn parse_file_internal(context: &ParseContext) -> Result<(), Error> {
     };
 
     parse(source.as_str(), &context)?;
+
+    // directories added by .includepath inside this file stay known to the including file
+    for added in context.include_paths.borrow().difference(&known_paths) {
+        outer.include_paths.borrow_mut().insert(added.clone());
+    }
 
     Ok(())
 }
